@@ -63,7 +63,7 @@ def run_fault(model, op, teams_vals, kwargs, fault, foreign, kind, al=None):
 def check_c13(case, ctx):
     cfg, teams, call = case["cfg"], case["teams"], case["call"]
     kind = cfg["kind"]
-    model = model_for(cfg, call)  # possibly a model that has been through one call that did not complete normally (prelude)
+    model = model_for(cfg, call, teams)  # possibly a model that has been through one call that did not complete normally (prelude)
     al = case.get("alias")
     if al:
         ctx.label("aliased-rating-object")
